@@ -69,6 +69,9 @@ def rightAssoc (op : BinaryOperator) : Bool := op = .Power
 def docInside (L : DocLevels) (a b : BinaryOperator) : Bool :=
   L.bin a < L.bin b || (L.bin a = L.bin b && rightAssoc a)
 
+/-- the operators whose right power the parser uses (`is` and `|` take a name, not an operand) -/
+def takesOperand (a : BinaryOperator) : Bool := decide (a ≠ .Is ∧ a ≠ .Pipe)
+
 /-- Boolean form of `TableOK` (decidable over the whole tables). -/
 def tableOK (L : DocLevels) (T : BpTable) : Bool :=
   -- operators on one row have one associativity
@@ -76,14 +79,16 @@ def tableOK (L : DocLevels) (T : BpTable) : Bool :=
     decide (L.bin a = L.bin b → rightAssoc a = rightAssoc b)))
   -- an operator continues inside a right operand exactly when the documentation says so
   && BinaryOperator.all.all (fun a => BinaryOperator.all.all (fun b =>
-    decide ((T.binary a).2 ≤ (T.binary b).1 ↔ docInside L a b = true)))
+    decide (takesOperand a = true →
+      ((T.binary a).2 ≤ (T.binary b).1 ↔ docInside L a b = true))))
   -- a binary operator continues inside the operand of a unary operator exactly when it is on a
   -- higher row
   && [UnaryOperator.Not, .Minus].all (fun u => BinaryOperator.all.all (fun b =>
     decide (T.unary u ≤ (T.binary b).1 ↔ L.unary u < L.bin b)))
   -- the ternary is the loosest construct
   && BinaryOperator.all.all (fun a =>
-    decide (T.ternary < (T.binary a).1) && decide (T.ternary < (T.binary a).2))
+    decide (T.ternary < (T.binary a).1)
+      && decide (takesOperand a = true → T.ternary < (T.binary a).2))
   && decide (T.ternary < T.unary .Not) && decide (T.ternary < T.unary .Minus)
   -- the two-word spellings are on the rows of `in` and `is`
   && decide (L.notIn = L.bin .In) && decide (L.isNot = L.bin .Is)
@@ -117,9 +122,10 @@ include h
 /-- the clauses of `TableOK`, as propositions about all operators -/
 theorem TableOK.unpack :
     (∀ a b, L.bin a = L.bin b → rightAssoc a = rightAssoc b)
-    ∧ (∀ a b, (T.binary a).2 ≤ (T.binary b).1 ↔ docInside L a b = true)
+    ∧ (∀ a b, takesOperand a = true →
+        ((T.binary a).2 ≤ (T.binary b).1 ↔ docInside L a b = true))
     ∧ (∀ u b, T.unary u ≤ (T.binary b).1 ↔ L.unary u < L.bin b)
-    ∧ (∀ a, T.ternary < (T.binary a).1 ∧ T.ternary < (T.binary a).2)
+    ∧ (∀ a, T.ternary < (T.binary a).1 ∧ (takesOperand a = true → T.ternary < (T.binary a).2))
     ∧ (∀ u, T.ternary < T.unary u)
     ∧ L.notIn = L.bin .In ∧ L.isNot = L.bin .Is
     ∧ (∀ a, L.bin a < L.post) ∧ (∀ u, L.unary u < L.post)
@@ -146,14 +152,19 @@ theorem TableOK.unpack :
 theorem TableOK.rowAssoc (a b : BinaryOperator) :
     L.bin a = L.bin b → rightAssoc a = rightAssoc b := (TableOK.unpack h).1 a b
 
-theorem TableOK.inside (a b : BinaryOperator) :
-    (T.binary a).2 ≤ (T.binary b).1 ↔ docInside L a b = true := (TableOK.unpack h).2.1 a b
+theorem TableOK.inside (a b : BinaryOperator) (h1 : a ≠ .Is) (h2 : a ≠ .Pipe) :
+    (T.binary a).2 ≤ (T.binary b).1 ↔ docInside L a b = true :=
+  (TableOK.unpack h).2.1 a b (by simp [takesOperand, h1, h2])
 
 theorem TableOK.unaryInside (u : UnaryOperator) (b : BinaryOperator) :
     T.unary u ≤ (T.binary b).1 ↔ L.unary u < L.bin b := (TableOK.unpack h).2.2.1 u b
 
-theorem TableOK.ternaryLowest (a : BinaryOperator) :
-    T.ternary < (T.binary a).1 ∧ T.ternary < (T.binary a).2 := (TableOK.unpack h).2.2.2.1 a
+theorem TableOK.ternaryLowest (a : BinaryOperator) : T.ternary < (T.binary a).1 :=
+  ((TableOK.unpack h).2.2.2.1 a).1
+
+theorem TableOK.ternaryLowestR (a : BinaryOperator) (h1 : a ≠ .Is) (h2 : a ≠ .Pipe) :
+    T.ternary < (T.binary a).2 :=
+  ((TableOK.unpack h).2.2.2.1 a).2 (by simp [takesOperand, h1, h2])
 
 theorem TableOK.ternaryBelowUnary (u : UnaryOperator) : T.ternary < T.unary u :=
   (TableOK.unpack h).2.2.2.2.1 u
@@ -255,6 +266,15 @@ inductive S where
   | absent
   /-- `[e for key, value in target if cond]` (`cond` may be `absent`) -/
   | comp (e : S) (key : Option String) (value : String) (target : S) (cond : S)
+  /-- `e[a:b:c]` on a non-identifier base (each of `a`, `b`, `c` may be `absent`) -/
+  | slice (e : S) (a b c : S)
+  /-- `e[a:b:c]` / `e?[a:b:c]` along an identifier chain -/
+  | subSlice (e : S) (a b c : S) (opt : Bool)
+  /-- a trailing `,` ending a non-empty argument list / list of array entries / list of map
+  entries (not expressions) -/
+  | argEnd
+  | itemEnd
+  | entryEnd
   deriving Repr, Inhabited
 
 /-- source token of an infix operator -/
@@ -271,6 +291,21 @@ def unaryTok : UnaryOperator → Tok
   | .Minus => .minus
 
 namespace S
+
+/-- `key,` of a comprehension over key and value -/
+def keyToks : Option String → List Tok
+  | some k => [.ident k, .comma]
+  | none => []
+
+/-- an omitted optional part -/
+def isAbsent : S → Bool
+  | absent => true
+  | _ => false
+
+/-- a trailing-comma end of a list -/
+def isEnd : S → Bool
+  | argEnd | itemEnd | entryEnd => true
+  | _ => false
 
 /-- the `,` between two arguments -/
 def sepToks : S → List Tok
@@ -309,12 +344,19 @@ def toks : S → List Tok
   | entrySpread x rest => .spread :: (toks x ++ (sepToks rest ++ toks rest))
   | mapLit es => .leftBrace :: (toks es ++ [.rightBrace])
   | absent => []
+  | argEnd => [.comma]
+  | itemEnd => [.comma]
+  | entryEnd => [.comma]
+  | slice e a b c =>
+    toks e ++ .leftBracket :: (toks a ++ .colon :: (toks b
+      ++ ((if c.isAbsent then [] else [.colon]) ++ (toks c ++ [.rightBracket]))))
+  | subSlice e a b c opt =>
+    toks e ++ (if opt then .questionMarkLeftBracket else .leftBracket) :: (toks a ++ .colon
+      :: (toks b ++ ((if c.isAbsent then [] else [.colon]) ++ (toks c ++ [.rightBracket]))))
   | comp e key value target cond =>
-    .leftBracket :: (toks e ++ .ident "for" :: ((match key with
-        | some k => [.ident k, .comma]
-        | none => []) ++ .ident value :: .ident "in" :: (toks target ++ ((match cond with
-        | absent => []
-        | _ => [.ident "if"]) ++ (toks cond ++ [.rightBracket])))))
+    .leftBracket :: (toks e ++ .ident "for" :: (keyToks key
+        ++ .ident value :: .ident "in" :: (toks target
+          ++ ((if cond.isAbsent then [] else [.ident "if"]) ++ (toks cond ++ [.rightBracket])))))
   | argCons k v rest => .ident k :: .assign :: (toks v ++ (sepToks rest ++ toks rest))
   | call name args => .ident name :: .leftParen :: (toks args ++ [.rightParen])
   | filterA e name args => toks e ++ .pipe :: .ident name :: .leftParen :: (toks args ++ [.rightParen])
@@ -370,10 +412,19 @@ def erase : S → Expr
   | mapLit es => foldMap (eraseEntries es)
   | comp e key value target cond =>
     .listComprehension (erase e) key value (erase target)
-      (match cond with
-        | absent => none
-        | _ => some (erase cond))
+      (if cond.isAbsent then none else some (erase cond))
+  | slice e a b c =>
+    .slice (erase e) (if a.isAbsent then none else some (erase a))
+      (if b.isAbsent then none else some (erase b)) (if c.isAbsent then none else some (erase c))
+      false
+  | subSlice e a b c opt =>
+    .slice (erase e) (if a.isAbsent then none else some (erase a))
+      (if b.isAbsent then none else some (erase b)) (if c.isAbsent then none else some (erase c))
+      opt
   | absent => .const .none
+  | argEnd => .const .none
+  | itemEnd => .const .none
+  | entryEnd => .const .none
   | entryNil => .const .none
   | entryKV .. => .const .none
   | entrySpread .. => .const .none
@@ -415,6 +466,8 @@ def need : S → Nat
   | entrySpread x rest => max (1 + need x) (need rest)
   | mapLit es => need es
   | comp e _ _ target cond => max (1 + need e) (max (1 + need target) (1 + need cond))
+  | slice e a b c => max (need e) (max (1 + need a) (max (1 + need b) (1 + need c)))
+  | subSlice e a b c _ => max (need e) (max (1 + need a) (max (1 + need b) (1 + need c)))
   | call _ args => need args
   | filterA e _ args => max (need e) (need args)
   | testA e _ _ args => max (need e) (need args)
@@ -439,6 +492,8 @@ def bneed : S → Nat
   | entrySpread x rest => max (bneed x) (bneed rest)
   | mapLit es => bneed es
   | comp e _ _ target cond => max (bneed e) (max (bneed target) (bneed cond))
+  | slice e a b c => max (bneed e) (1 + max (bneed a) (max (bneed b) (bneed c)))
+  | subSlice e a b c _ => max (bneed e) (1 + max (bneed a) (max (bneed b) (bneed c)))
   | call _ args => bneed args
   | filterA e _ args => max (bneed e) (bneed args)
   | testA e _ _ args => max (bneed e) (bneed args)
@@ -463,6 +518,8 @@ def adneed : S → Nat
   | entrySpread x rest => max (adneed x) (adneed rest)
   | mapLit es => adneed es
   | comp e _ _ target cond => max (1 + adneed e) (max (adneed target) (adneed cond))
+  | slice e a b c => max (adneed e) (max (adneed a) (max (adneed b) (adneed c)))
+  | subSlice e a b c _ => max (adneed e) (max (adneed a) (max (adneed b) (adneed c)))
   | call _ args => adneed args
   | filterA e _ args => max (adneed e) (adneed args)
   | testA e _ _ args => max (adneed e) (adneed args)
@@ -490,6 +547,7 @@ def isChain : S → Bool
   | var _ => true
   | attr e _ _ => isChain e
   | sub e _ _ => isChain e
+  | subSlice e _ _ _ _ => isChain e
   | _ => false
 
 /-- the identifier a chain starts with -/
@@ -497,6 +555,7 @@ def chainRoot : S → String
   | var name => name
   | attr e _ _ => chainRoot e
   | sub e _ _ => chainRoot e
+  | subSlice e _ _ _ _ => chainRoot e
   | _ => ""
 
 /-- names of an argument list, in source order -/
@@ -508,7 +567,7 @@ def argNames : S → List String
 parenthesised expression, or another such subscript -/
 def primary : S → Bool
   | int _ | float _ | str _ | bool _ | noneLit _ | paren _ | index .. | call .. | arr _
-  | mapLit _ | comp .. => true
+  | mapLit _ | comp .. | slice .. => true
   | _ => false
 
 mutual
@@ -537,18 +596,27 @@ def DocWP (L : DocLevels) : S → Prop
   | sub e i _ => e.isChain = true ∧ DocWP L e ∧ DocWP L i
   | call name args =>
     (name ≠ "none" ∧ name ≠ "None" ∧ name ≠ "null" ∧ name ≠ "not") ∧ DocWPArgs L args
-  | filterA e _ args => DocWP L e ∧ L.bin .Pipe ≤ e.lvl L ∧ DocWPArgs L args
+      ∧ args.isEnd = false
+  | filterA e _ args => DocWP L e ∧ L.bin .Pipe ≤ e.lvl L ∧ DocWPArgs L args ∧ args.isEnd = false
   | testA e name neg args =>
     DocWP L e ∧ L.bin .Is ≤ e.lvl L ∧ (neg = false → name ≠ "not") ∧ DocWPArgs L args
-  | arr items => DocWPItems L items
-  | mapLit es => DocWPEntries L es
+      ∧ args.isEnd = false
+  | arr items => DocWPItems L items ∧ items.isEnd = false
+  | mapLit es => DocWPEntries L es ∧ es.isEnd = false
   | comp e key value target cond =>
     DocWP L e ∧ value ∉ Gen.RESERVED_NAMES ∧ (∀ k, key = some k → k ∉ Gen.RESERVED_NAMES)
       ∧ DocWP L target ∧ 1 ≤ target.lvl L
-      ∧ (match cond with
-          | absent => True
-          | _ => DocWP L cond ∧ 1 ≤ cond.lvl L)
+      ∧ (if cond.isAbsent then True else DocWP L cond ∧ 1 ≤ cond.lvl L)
+  | slice e a b c => DocWP L e ∧ e.primary = true
+      ∧ (if a.isAbsent then True else DocWP L a) ∧ (if b.isAbsent then True else DocWP L b)
+      ∧ (if c.isAbsent then True else DocWP L c)
+  | subSlice e a b c _ => e.isChain = true ∧ DocWP L e
+      ∧ (if a.isAbsent then True else DocWP L a) ∧ (if b.isAbsent then True else DocWP L b)
+      ∧ (if c.isAbsent then True else DocWP L c)
   | absent => False
+  | argEnd => False
+  | itemEnd => False
+  | entryEnd => False
   | entryNil => False
   | entryKV .. => False
   | entrySpread .. => False
@@ -559,16 +627,19 @@ def DocWP (L : DocLevels) : S → Prop
 /-- the same for an argument list: every value is well parenthesised, no name is repeated -/
 def DocWPArgs (L : DocLevels) : S → Prop
   | argNil => True
+  | argEnd => True
   | argCons k v rest => DocWP L v ∧ k ∉ argNames rest ∧ DocWPArgs L rest
   | _ => False
 /-- the same for a list of array entries -/
 def DocWPItems (L : DocLevels) : S → Prop
   | itemNil => True
+  | itemEnd => True
   | itemCons _ x rest => DocWP L x ∧ DocWPItems L rest
   | _ => False
 /-- the same for a list of map entries -/
 def DocWPEntries (L : DocLevels) : S → Prop
   | entryNil => True
+  | entryEnd => True
   | entryKV _ v rest => DocWP L v ∧ DocWPEntries L rest
   | entrySpread x rest => DocWP L x ∧ DocWPEntries L rest
   | _ => False
@@ -622,26 +693,30 @@ def decDocWP (L : DocLevels) : (s : S) → Decidable (s.DocWP L)
   | call name args =>
     have := decDocWPArgs L args
     inferInstanceAs (Decidable ((name ≠ "none" ∧ name ≠ "None" ∧ name ≠ "null" ∧ name ≠ "not")
-      ∧ DocWPArgs L args))
+      ∧ DocWPArgs L args ∧ args.isEnd = false))
   | filterA e _ args =>
     have := decDocWP L e
     have := decDocWPArgs L args
-    inferInstanceAs (Decidable (DocWP L e ∧ L.bin .Pipe ≤ e.lvl L ∧ DocWPArgs L args))
+    inferInstanceAs (Decidable (DocWP L e ∧ L.bin .Pipe ≤ e.lvl L ∧ DocWPArgs L args
+      ∧ args.isEnd = false))
   | testA e name neg args =>
     have := decDocWP L e
     have := decDocWPArgs L args
     inferInstanceAs (Decidable (DocWP L e ∧ L.bin .Is ≤ e.lvl L ∧ (neg = false → name ≠ "not")
-      ∧ DocWPArgs L args))
-  | arr items => decDocWPItems L items
-  | mapLit es => decDocWPEntries L es
+      ∧ DocWPArgs L args ∧ args.isEnd = false))
+  | arr items =>
+    have := decDocWPItems L items
+    inferInstanceAs (Decidable (DocWPItems L items ∧ items.isEnd = false))
+  | mapLit es =>
+    have := decDocWPEntries L es
+    inferInstanceAs (Decidable (DocWPEntries L es ∧ es.isEnd = false))
+  | argEnd => isFalse (fun h => h)
+  | itemEnd => isFalse (fun h => h)
+  | entryEnd => isFalse (fun h => h)
   | comp e key value target cond =>
     have := decDocWP L e
     have := decDocWP L target
-    have : Decidable (match cond with
-          | absent => True
-          | _ => DocWP L cond ∧ 1 ≤ cond.lvl L) := by
-      have := decDocWP L cond
-      cases cond <;> (simp only []; infer_instance)
+    have := decDocWP L cond
     have : Decidable (∀ k, key = some k → k ∉ Gen.RESERVED_NAMES) := by
       cases key with
       | none => exact isTrue (by intro k h; cases h)
@@ -651,9 +726,23 @@ def decDocWP (L : DocLevels) : (s : S) → Decidable (s.DocWP L)
     inferInstanceAs (Decidable (DocWP L e ∧ value ∉ Gen.RESERVED_NAMES
       ∧ (∀ k, key = some k → k ∉ Gen.RESERVED_NAMES)
       ∧ DocWP L target ∧ 1 ≤ target.lvl L
-      ∧ (match cond with
-          | absent => True
-          | _ => DocWP L cond ∧ 1 ≤ cond.lvl L)))
+      ∧ (if cond.isAbsent then True else DocWP L cond ∧ 1 ≤ cond.lvl L)))
+  | slice e a b c =>
+    have := decDocWP L e
+    have := decDocWP L a
+    have := decDocWP L b
+    have := decDocWP L c
+    inferInstanceAs (Decidable (DocWP L e ∧ e.primary = true
+      ∧ (if a.isAbsent then True else DocWP L a) ∧ (if b.isAbsent then True else DocWP L b)
+      ∧ (if c.isAbsent then True else DocWP L c)))
+  | subSlice e a b c _ =>
+    have := decDocWP L e
+    have := decDocWP L a
+    have := decDocWP L b
+    have := decDocWP L c
+    inferInstanceAs (Decidable (e.isChain = true ∧ DocWP L e
+      ∧ (if a.isAbsent then True else DocWP L a) ∧ (if b.isAbsent then True else DocWP L b)
+      ∧ (if c.isAbsent then True else DocWP L c)))
   | absent => isFalse (fun h => h)
   | entryNil => isFalse (fun h => h)
   | entryKV .. => isFalse (fun h => h)
@@ -664,6 +753,7 @@ def decDocWP (L : DocLevels) : (s : S) → Decidable (s.DocWP L)
   | itemCons .. => isFalse (fun h => h)
 def decDocWPArgs (L : DocLevels) : (s : S) → Decidable (s.DocWPArgs L)
   | argNil => isTrue trivial
+  | argEnd => isTrue trivial
   | argCons k v rest =>
     have := decDocWP L v
     have := decDocWPArgs L rest
@@ -671,9 +761,10 @@ def decDocWPArgs (L : DocLevels) : (s : S) → Decidable (s.DocWPArgs L)
   | int _ | float _ | str _ | bool _ | noneLit _ | var _ | paren _ | unary .. | binary ..
   | notIn .. | ternary .. | filter .. | test .. | index .. | attr .. | sub .. | call ..
   | filterA .. | testA .. | itemNil | itemCons .. | arr _ | entryNil | entryKV .. | entrySpread ..
-  | mapLit _ | absent | comp .. => isFalse (fun h => h)
+  | mapLit _ | absent | comp .. | slice .. | subSlice .. | itemEnd | entryEnd => isFalse (fun h => h)
 def decDocWPItems (L : DocLevels) : (s : S) → Decidable (s.DocWPItems L)
   | itemNil => isTrue trivial
+  | itemEnd => isTrue trivial
   | itemCons _ x rest =>
     have := decDocWP L x
     have := decDocWPItems L rest
@@ -681,9 +772,10 @@ def decDocWPItems (L : DocLevels) : (s : S) → Decidable (s.DocWPItems L)
   | int _ | float _ | str _ | bool _ | noneLit _ | var _ | paren _ | unary .. | binary ..
   | notIn .. | ternary .. | filter .. | test .. | index .. | attr .. | sub .. | call ..
   | filterA .. | testA .. | argNil | argCons .. | arr _ | entryNil | entryKV .. | entrySpread ..
-  | mapLit _ | absent | comp .. => isFalse (fun h => h)
+  | mapLit _ | absent | comp .. | slice .. | subSlice .. | argEnd | entryEnd => isFalse (fun h => h)
 def decDocWPEntries (L : DocLevels) : (s : S) → Decidable (s.DocWPEntries L)
   | entryNil => isTrue trivial
+  | entryEnd => isTrue trivial
   | entryKV _ v rest =>
     have := decDocWP L v
     have := decDocWPEntries L rest
@@ -695,7 +787,7 @@ def decDocWPEntries (L : DocLevels) : (s : S) → Decidable (s.DocWPEntries L)
   | int _ | float _ | str _ | bool _ | noneLit _ | var _ | paren _ | unary .. | binary ..
   | notIn .. | ternary .. | filter .. | test .. | index .. | attr .. | sub .. | call ..
   | filterA .. | testA .. | argNil | argCons .. | arr _ | itemNil | itemCons ..
-  | mapLit _ | absent | comp .. => isFalse (fun h => h)
+  | mapLit _ | absent | comp .. | slice .. | subSlice .. | argEnd | itemEnd => isFalse (fun h => h)
 end
 
 instance (L : DocLevels) (s : S) : Decidable (s.DocWP L) := decDocWP L s
@@ -739,9 +831,11 @@ def canon (L : DocLevels) : S → S
   | mapLit es => mapLit (canon L es)
   | comp e key value target cond =>
     comp (canon L e) key value (atLeast L 1 (canon L target))
-      (match cond with
-        | absent => absent
-        | _ => atLeast L 1 (canon L cond))
+      (if cond.isAbsent then absent else atLeast L 1 (canon L cond))
+  | slice e a b c =>
+    slice (if (canon L e).primary then canon L e else paren (canon L e)) (canon L a) (canon L b)
+      (canon L c)
+  | subSlice e a b c o => subSlice (canon L e) (canon L a) (canon L b) (canon L c) o
   | call n args => call n (canon L args)
   | filterA e n args => filterA (atLeast L (L.bin .Pipe) (canon L e)) n (canon L args)
   | testA e n g args => testA (atLeast L (L.bin .Is) (canon L e)) n g (canon L args)
@@ -771,16 +865,25 @@ def Valid : S → Prop
   | sub e i _ => e.isChain = true ∧ Valid e ∧ Valid i
   | call name args =>
     (name ≠ "none" ∧ name ≠ "None" ∧ name ≠ "null" ∧ name ≠ "not") ∧ ValidArgs args
-  | filterA e _ args => Valid e ∧ ValidArgs args
+      ∧ args.isEnd = false
+  | filterA e _ args => Valid e ∧ ValidArgs args ∧ args.isEnd = false
   | testA e name neg args => Valid e ∧ (neg = false → name ≠ "not") ∧ ValidArgs args
-  | arr items => ValidItems items
-  | mapLit es => ValidEntries es
+      ∧ args.isEnd = false
+  | arr items => ValidItems items ∧ items.isEnd = false
+  | mapLit es => ValidEntries es ∧ es.isEnd = false
+  | argEnd => False
+  | itemEnd => False
+  | entryEnd => False
   | comp e key value target cond =>
     Valid e ∧ value ∉ Gen.RESERVED_NAMES ∧ (∀ k, key = some k → k ∉ Gen.RESERVED_NAMES)
       ∧ Valid target
-      ∧ (match cond with
-          | absent => True
-          | _ => Valid cond)
+      ∧ (if cond.isAbsent then True else Valid cond)
+  | slice e a b c => Valid e
+      ∧ (if a.isAbsent then True else Valid a) ∧ (if b.isAbsent then True else Valid b)
+      ∧ (if c.isAbsent then True else Valid c)
+  | subSlice e a b c _ => e.isChain = true ∧ Valid e
+      ∧ (if a.isAbsent then True else Valid a) ∧ (if b.isAbsent then True else Valid b)
+      ∧ (if c.isAbsent then True else Valid c)
   | absent => False
   | entryNil => False
   | entryKV .. => False
@@ -791,14 +894,17 @@ def Valid : S → Prop
   | itemCons .. => False
 def ValidArgs : S → Prop
   | argNil => True
+  | argEnd => True
   | argCons k v rest => Valid v ∧ k ∉ argNames rest ∧ ValidArgs rest
   | _ => False
 def ValidItems : S → Prop
   | itemNil => True
+  | itemEnd => True
   | itemCons _ x rest => Valid x ∧ ValidItems rest
   | _ => False
 def ValidEntries : S → Prop
   | entryNil => True
+  | entryEnd => True
   | entryKV _ v rest => Valid v ∧ ValidEntries rest
   | entrySpread x rest => Valid x ∧ ValidEntries rest
   | _ => False
